@@ -3,14 +3,18 @@ package c11
 import (
 	"context"
 	"fmt"
+	"google.golang.org/grpc/codes"
+	"google.golang.org/grpc/status"
 	"io"
 	"os"
+	"runtime"
 	"strings"
 	"sync"
 	"testing"
 	"time"
 
 	"google.golang.org/grpc"
+	"google.golang.org/grpc/metadata"
 	"google.golang.org/protobuf/encoding/prototext"
 	"google.golang.org/protobuf/proto"
 	"pgregory.net/rapid"
@@ -154,6 +158,31 @@ func TestRaceCollection(t *testing.T) {
 			},
 			func(g, i int) { _, _ = c.Delete(ids[i%3], resource.WithAllowMissing(true)) },
 			func(g, i int) {
+				// a conditional delete: the callback and the comparison read the stored message, and so does the caller
+				// with what Delete returns
+				old, _ := c.Delete(ids[i%3], resource.WithAllowMissing(true), resource.WithExpectedCheck(func(m proto.Message) error {
+					touch(m)
+					runtime.Gosched()
+					touch(m)
+					if i%2 == 0 {
+						return status.Error(codes.FailedPrecondition, "not now")
+					}
+					return nil
+				}))
+				touch(old)
+			},
+			func(g, i int) {
+				if cur, ok := c.Get(ids[i%3]); ok {
+					old, _ := c.Delete(ids[i%3], resource.WithExpectedValue(cur))
+					touch(old)
+				}
+			},
+			func(g, i int) {
+				if cur, ok := c.Get(ids[i%3]); ok {
+					_, _ = c.Update(ids[i%3], fm(int32(i)), resource.WithExpectedValue(cur), resource.WithUpdatePaths("c"))
+				}
+			},
+			func(g, i int) {
 				_, _ = c.Update(ids[i%3], fm(1), resource.InterceptBefore(func(old, change proto.Message) {
 					touch(old)
 					change.(*testproto.ForeignMessage).C += old.(*testproto.ForeignMessage).C
@@ -275,11 +304,16 @@ func (echoServer) Unary(ctx context.Context, r *testproto.UnaryRequest) (*testpr
 	return &testproto.UnaryResponse{Msg: r.Msg}, nil
 }
 func (echoServer) ServerStream(r *testproto.ServerStreamRequest, ss grpc.ServerStreamingServer[testproto.ServerStreamResponse]) error {
+	_ = ss.SetHeader(metadata.Pairs("h", "1"))
 	for i := int32(0); i < r.NumRes; i++ {
+		ss.SetTrailer(metadata.Pairs("t", fmt.Sprint(i)))
 		if err := ss.Send(&testproto.ServerStreamResponse{Counter: i}); err != nil {
+			// a handler may well record why it stopped (the client went away)
+			ss.SetTrailer(metadata.Pairs("stopped", err.Error()))
 			return err
 		}
 	}
+	ss.SetTrailer(metadata.Pairs("done", "1"))
 	return nil
 }
 func (echoServer) ClientStream(ss grpc.ClientStreamingServer[testproto.ClientStreamRequest, testproto.ClientStreamResponse]) error {
@@ -299,7 +333,9 @@ func (echoServer) BidiStream(ss grpc.BidiStreamingServer[testproto.BidiStreamReq
 		if err != nil {
 			return nil
 		}
+		ss.SetTrailer(metadata.Pairs("last", m.Msg))
 		if err := ss.Send(&testproto.BidiStreamResponse{Msg: m.Msg}); err != nil {
+			ss.SetTrailer(metadata.Pairs("stopped", err.Error()))
 			return err
 		}
 	}
@@ -325,6 +361,11 @@ func TestRaceWrappedClient(t *testing.T) {
 				for k := 0; ; k++ {
 					m, err := st.Recv()
 					if err != nil {
+						// once Recv has failed (end of stream, or our own cancel) header and trailer may be read
+						if h, _ := st.Header(); h != nil {
+							_ = len(h.Get("h"))
+						}
+						_ = len(st.Trailer().Get("t"))
 						return
 					}
 					touch(m)
@@ -363,6 +404,11 @@ func TestRaceWrappedClient(t *testing.T) {
 				if i%2 == 0 {
 					_ = st.CloseSend()
 					_, _ = st.Recv()
+				} else {
+					c()
+					if _, err := st.Recv(); err != nil {
+						_ = len(st.Trailer().Get("last"))
+					}
 				}
 			},
 		}
